@@ -31,7 +31,9 @@ DTS = {
 }
 HDRS = {0: None, 1: {"k": 1, "note": "x END y"}, 2: {"other": [1, 2.5]},
         # user keys that spell the reserved words without the underscore: they are ordinary keys
-        3: {"size": 12, "nrows": 3, "delim": "x", "dtype": "f8", "version": 7}}
+        3: {"size": 12, "nrows": 3, "delim": "x", "dtype": "f8", "version": 7},
+        # twin of header 1: the same length byte for byte, another value (a file replaced by one of equal size)
+        4: {"k": 2, "note": "x END y"}}
 
 
 def chunk(dk, start, n):
@@ -96,6 +98,11 @@ def main(ctx):
     BADKINDS = ["type", "name", "count", "shape", "strlen", "order", "plain"]
     HBAD = ctx.pick(["type", "order"], BADKINDS)
 
+    def _mods():
+        import esutil.sfile as _sm
+        import esutil.recfile.Util as _ru
+        return [_sm, _ru]
+
     # ------------------------------------------------------------------ world 1
     def make_world(dk, spelling="plain"):
         def menu(m, h):
@@ -107,6 +114,8 @@ def main(ctx):
                             for k in KS:
                                 ops.append(("create", delim, hk, k))
                         ops.append(("create", delim, 3, 1))
+                        if spelling == "pinned-mtime":
+                            ops.append(("create", delim, 4, KS[0]))
                     # append with a header argument: it is the creation header when the file does not exist yet,
                     # and ignored otherwise
                     ops.append(("append_h", 1, 1))
@@ -192,7 +201,7 @@ def main(ctx):
                 # a bare / dotted relative name, the process sitting in the directory (every history runs in its own child)
                 os.chdir(rec.tmp)
                 os.makedirs(os.path.join(rec.tmp, "sub"), exist_ok=True)
-            fn = {"plain": fnr, "env": "$C03DIR/c03_%s.rec" % dk, "home": "~/c03_%s.rec" % dk,
+            fn = {"plain": fnr, "pinned-mtime": fnr, "env": "$C03DIR/c03_%s.rec" % dk, "home": "~/c03_%s.rec" % dk,
                   "pathlib": pathlib.Path(fnr), "relative": "c03_%s.rec" % dk, "relative-dotted": "./sub/../c03_%s.rec" % dk}[spelling]
             m = dict(exists=False, delim=None, hdr=None, n=0, empty=False)
             h = None       # model of the open handle: dict(mode, first)
@@ -207,6 +216,10 @@ def main(ctx):
                 for i, op in enumerate(hist):
                     last = i == len(hist) - 1
                     k = op[0]
+                    if spelling == "pinned-mtime" and os.path.exists(fnr):
+                        # a coarse file-system clock (or a copy that preserves times): every version of the file carries
+                        # the same modification time, so "unchanged since I last looked" cannot be told from the time stamp
+                        os.utime(fnr, ns=(10 ** 18, 10 ** 18))
                     if k == "create":
                         _, delim, hk, nk = op
                         sfile.write(fn, chunk(dk, 0, nk), delim=delim, header=HDRS[hk])
@@ -348,15 +361,15 @@ def main(ctx):
 
     depth = ctx.pick(5, 9)
     for dk in ctx.pick(["A"], ["A", "B"]):
-        ctx.histories("sfile-world(%s)" % dk, [()], pristine(make_world(dk)), depth=depth, nodedup_depth=2,
+        ctx.histories("sfile-world(%s)" % dk, [()], pristine(make_world(dk), _mods), depth=depth, nodedup_depth=2,
                       bounds=dict(depth=depth, nmax=NMAX, delims=[repr(d) for d in DELIMS], dtype=str(DTS[dk]),
                                   bad_kinds=BADKINDS, headers=len(HDRS)))
 
     # the same world with the path spelled through an environment variable / through ~
-    for sp in ctx.pick(["env", "pathlib", "relative"], ["env", "home", "pathlib", "relative", "relative-dotted"]):
-        ctx.histories("sfile-world(A,path:%s)" % sp, [()], pristine(make_world("A", sp)), depth=ctx.pick(3, 5), nodedup_depth=ctx.pick(1, 2),
+    for sp in ctx.pick(["env", "pathlib", "relative", "pinned-mtime"], ["env", "home", "pathlib", "relative", "relative-dotted", "pinned-mtime"]):
+        ctx.histories("sfile-world(A,path:%s)" % sp, [()], pristine(make_world("A", sp), _mods), depth=ctx.pick(4 if sp == "pinned-mtime" else 3, 5), nodedup_depth=ctx.pick(1, 2),
                       bounds=dict(path_spelling={"env": "$C03DIR/name", "home": "~/name", "pathlib": "pathlib.Path(name)", "relative": "name (cwd = directory)",
-                                                "relative-dotted": "./sub/../name"}[sp]))
+                                                "relative-dotted": "./sub/../name", "pinned-mtime": "plain name; the modification time of the file is reset to one fixed value before every operation"}[sp]))
 
     # seeded from non-initial states: pre-existing files written through other routes
     seeds = [
@@ -364,7 +377,7 @@ def main(ctx):
         (("open", "w", None), ("hwrite", 2, 2), ("hwrite", 1, 0), ("hclose",)),
         (("create", None, 1, 1), ("open", "r+", None), ("hwrite", 2, 0), ("hclose",)),
     ]
-    ctx.histories("sfile-world(seeded)", seeds, pristine(make_world("A")), depth=ctx.pick(6, 8), nodedup_depth=4,
+    ctx.histories("sfile-world(seeded)", seeds, pristine(make_world("A"), _mods), depth=ctx.pick(6, 8), nodedup_depth=4,
                   bounds=dict(seeds=len(seeds)))
 
     # ------------------------------------------------- world 2: header-less recfile
@@ -463,10 +476,10 @@ def main(ctx):
                 ops.append(("rclose",))
         return key, tuple(ops)
 
-    ctx.histories("recfile-world", [()], pristine(execute2), depth=ctx.pick(5, 7), nodedup_depth=2,
+    ctx.histories("recfile-world", [()], pristine(execute2, _mods), depth=ctx.pick(5, 7), nodedup_depth=2,
                   bounds=dict(nmax=NMAX))
     for sp in ("env", "relative"):
-        ctx.histories("recfile-world(path:%s)" % sp, [()], pristine(lambda hist, rec, _sp=sp: execute2(hist, rec, _sp)), depth=ctx.pick(3, 5), nodedup_depth=ctx.pick(1, 2),
+        ctx.histories("recfile-world(path:%s)" % sp, [()], pristine(lambda hist, rec, _sp=sp: execute2(hist, rec, _sp), _mods), depth=ctx.pick(3, 5), nodedup_depth=ctx.pick(1, 2),
                       bounds=dict(path_spelling={"env": "$C03DIR/name", "relative": "name (cwd = directory)"}[sp]))
 
     # ------------------------------------------------- world 3: two files alive at the same time
